@@ -30,9 +30,10 @@ axis = XPath1Parser.axis
 @method(register('@', lbp=80, rbp=80, label="attribute reference"))
 def nud__attribute_reference(self: XPathAxis) -> XPathAxis:
     self.parser.expected_next(
-        '*', '(name)', ':', '{', 'Q{', message="invalid attribute specification")
+        '*', '(name)', ':', '{', 'Q{', 'node', 'text', 'comment', 'processing-instruction',
+        message="invalid attribute specification")
     self[:] = self.parser.expression(rbp=80),
-    self.name = self[0].name
+    self.name = getattr(self[0], 'name', None)
     return self
 
 
